@@ -368,6 +368,21 @@ def getitem(interp, obj, idx):
                     raise Unsupported("element access: could not isolate the element")
                 one = found
         return wrap_elem(one[0])
+    if isinstance(obj, PyList) and obj.prefix is not None:
+        # open list: only "last element" and "all but the last" (the shapes structural recursion from the end needs)
+        from . import loops
+        n = loops.open_list_len(interp, obj)
+        if isinstance(idx, SliceV):
+            if (idx.lo is None or idx.lo == 0) and idx.step is None and isinstance(idx.hi, int) and idx.hi == -1:
+                if interp.truth(ops.cmp("==", n, 0)):
+                    return PyList([], prefix=obj.prefix)
+                return loops.split_last(interp, obj)[0]
+            raise Unsupported("slice of a list of unknown length other than [:-1]")
+        if isinstance(idx, int) and idx == -1:
+            if interp.truth(ops.cmp("==", n, 0)):
+                interp.throw("IndexError", "list index out of range")
+            return loops.split_last(interp, obj)[1]
+        raise Unsupported("index into a list of unknown length other than [-1]")
     if isinstance(obj, (PyList, PyDeque)) or isinstance(obj, tuple):
         items = obj if isinstance(obj, tuple) else obj.items
         if isinstance(idx, SliceV):
@@ -525,12 +540,10 @@ def open_list_eq(interp, a, b):
     """== of lists of which at least one has an unknown prefix: element sequences as Seq(Int)."""
     from . import loops
     pre = a.prefix if a.prefix is not None else b.prefix
-    kind = "byteslist" if pre.sort() == loops.SeqSeqSort else "intlist"
+    kind = loops.list_kind_of_sort(pre.sort())
 
     def seq_of(l):
-        if kind == "intlist" and not all(is_intlike(x) for x in l._items):
-            raise Unsupported("open list of ints compared with a list holding other elements")
-        return loops.encode(interp, l, kind)
+        return loops.list_term(interp, l, kind)
     if a.prefix is not None and b.prefix is not None and a.prefix.eq(b.prefix) and len(a._items) == len(b._items):
         return ops.b_and(*[interp.symtruth(interp.eq(x, y)) for x, y in zip(a._items, b._items)])
     return ops.mkbool(seq_of(a) == seq_of(b))
@@ -619,8 +632,8 @@ def binop(interp, op, a, b, inplace=False):
     if isinstance(a, PyList) and isinstance(b, PyList) and t is ast.Add and b.prefix is not None and not inplace:
         # concatenation with an open right operand: the whole result becomes one sequence term
         from . import loops
-        kind = "byteslist" if b.prefix.sort() == loops.SeqSeqSort else "intlist"
-        ta, tb = loops.encode(interp, a, kind), loops.encode(interp, b, kind)
+        kind = loops.list_kind_of_sort(b.prefix.sort())
+        ta, tb = loops.list_term(interp, a, kind), loops.list_term(interp, b, kind)
         return PyList([], prefix=z3.Concat(ta, tb))
     if isinstance(a, PyList) and isinstance(b, PyList) and t is ast.Add:
         if inplace:
